@@ -53,14 +53,14 @@ def oracle_c04(hr: dsgen.HistoryRunner, stats) -> None:
                             f"{sh['path']} listed by {sh['list']}")
         if not os.path.isfile(full):
             raise Violation("C04", "listed_file_missing", sh["path"])
-        try:
-            n = len(dsgen.decode_shard(root, sh["path"], st))
-        except Exception as e:  # pylint: disable=broad-except
-            raise Violation(
-                "C04", "shard_count_wrong",
-                f"{sh['path']}: recorded {sh['count']}, the file does not "
-                f"decode ({type(e).__name__}: {str(e)[:120]}); columns hold up "
-                f"to {dsgen.stored_rows(root, sh['path'], st, 0)} rows") from e
+        rows = dsgen.stored_rows(root, sh["path"], st, 0)
+        if rows > sh["count"]:
+            # (judged before decoding: ragged npz columns make the reader
+            # raise; any other decoding failure propagates as before)
+            raise Violation("C04", "shard_count_wrong",
+                            f"{sh['path']}: recorded {sh['count']}, a column "
+                            f"of the file holds {rows} rows")
+        n = len(dsgen.decode_shard(root, sh["path"], st))
         n = dsgen.stored_rows(root, sh["path"], st, n)
         stats["shards_decoded"] += 1
         if n != sh["count"]:
